@@ -113,7 +113,7 @@ def flatten(case):
         for i in ids:
             d = c["defs"][str(i)]
             if d["kind"] == "nest":
-                if d["tock"] != 0.0 or d["always"]:
+                if d["tock"] != 0.0 or sc.eff_always(d):
                     return None
                 sub = expand(d["kids"])
                 if sub is None:
